@@ -577,7 +577,7 @@ def gen_special(rng):
 
 def gen_malformed(rng):
     """inputs outside the property's quantifier: the two sides must only agree on the outcome."""
-    fam = rng.randrange(9)
+    fam = rng.randrange(12)
 
     def ty(shape, lay, elt="i32", el=4, isint=True):
         return {"shape": shape, "elt": elt, "el": el, "int": isint, "layout": lay}
@@ -598,6 +598,15 @@ def gen_malformed(rng):
                 "src": ty([None], {"tsl": {"ts": [[[4, 2], [1, None]]], "offset": 0}}),
                 "dst": ty([None], None),
                 "rs": rt(SRC_BASE, [8]), "rd": rt(DST_BASE, [8])}
+    if fam in (9, 10):  # the debugging option test_ignore_transform (true: always a 1-D transfer; None: as false)
+        c = gen_case(rng, "quick") if rng.random() < 0.7 else gen_special(rng)
+        c["ignore"] = True if fam == 9 else None
+        if fam == 9:
+            c["kind"] = "malformed"
+        return c
+    if fam == 11:  # rank 0: default source, strided destination: the DESTINATION's `if not strides: return`
+        return {"kind": "malformed", "src": ty([], None), "dst": ty([], {"strided": [], "offset": 0}),
+                "rs": rt(SRC_BASE, []), "rd": rt(DST_BASE, [])}
     if fam == 4:  # rank 0, default layout: `assert total_size_op is not None` in MatchSimpleCopy
         return {"kind": "malformed", "src": ty([], None), "dst": ty([], None),
                 "rs": rt(SRC_BASE, []), "rd": rt(DST_BASE, [])}
@@ -736,7 +745,10 @@ class C05(Prop):
             return r
         TiledStridedLayout.largest_common_contiguous_block = wrapped
         try:
-            SNAXCopyToDMA().apply(snaxrun.ctx(), module)
+            if "ignore" in case:  # pass option test_ignore_transform = true / None (None means false)
+                SNAXCopyToDMA(test_ignore_transform=case["ignore"]).apply(snaxrun.ctx(), module)
+            else:
+                SNAXCopyToDMA().apply(snaxrun.ctx(), module)
         finally:
             TiledStridedLayout.largest_common_contiguous_block = orig
         module.verify()
@@ -763,7 +775,8 @@ class C05(Prop):
             return {"shape": t["shape"], "el": t["el"], "int": t["int"], "layout": t["layout"]}
         # C05_BYVALUE=1: model of the code BEFORE fix F21 (LCB membership by Stride value), for an unpatched tree
         return [{"fn": "c05.lower", "args": {"src": mt(case["src"]), "dst": mt(case["dst"]), "rs": case["rs"],
-                                             "rd": case["rd"], "idxs": idxs, "byValue": BYVALUE}}]
+                                             "rd": case["rd"], "idxs": idxs, "byValue": BYVALUE,
+                                             "ignore": bool(case.get("ignore"))}}]
 
     def _sample_idxs(self, case):
         shape = case["rs"]["shape"]
@@ -867,7 +880,8 @@ class C05(Prop):
 
     # -- property on the real code
     def _in_quantifier(self, case):
-        return (case["kind"] == "copy" and equal_tile_bounds(case) and static_bounds_match_shape(case)
+        # test_ignore_transform=true is documented as producing wrong data: no property is claimed for it
+        return (case["kind"] == "copy" and not case.get("ignore") and equal_tile_bounds(case) and static_bounds_match_shape(case)
                 and case["src"]["shape"] == case["dst"]["shape"])
 
     def oracle_module(self, case, impl_out):
